@@ -112,7 +112,8 @@ def run_hypothesis(mod, sub, n_examples, seed, tier, timeout, state):
     # counterexample is, never the verdict
     shrink_budget = 3000 if tier == "quick" else 20000
     shrink_cpu = 45.0 if tier == "quick" else 600.0
-    st = {"failing": {}, "calls_after_fail": 0, "last": None, "first": None, "t_fail": None}
+    st = {"failing": {}, "calls_after_fail": 0, "last": None, "first": None, "t_fail": None,
+          "timeouts0": state.inconclusive.get("timeout", 0)}
 
     @hypothesis.seed(seed)
     @settings(max_examples=n_examples, database=None, deadline=None, derandomize=False,
@@ -124,6 +125,9 @@ def run_hypothesis(mod, sub, n_examples, seed, tier, timeout, state):
         searching = st["first"] is None
         failure = None
         h = None
+        if searching and state.inconclusive.get("timeout", 0) - st["timeouts0"] >= MAX_TIMEOUTS_PER_SUBCHECK:
+            state.inconclusive["skipped-after-timeouts"] = state.inconclusive.get("skipped-after-timeouts", 0) + 1
+            return
         if not searching:
             st["calls_after_fail"] += 1
             h = case_hash(case)
@@ -180,8 +184,31 @@ def run_enumeration(mod, sub, tier, shard, nshards, timeout, state):
     state.exhaustive_done[sub.name] = n
 
 
+MAX_TIMEOUTS_PER_SUBCHECK = 6
+
+
+def _limit_memory():
+    """Cap the address space of a shard: a runaway grounding then raises MemoryError (inconclusive)
+    instead of taking the machine down."""
+    try:
+        import resource
+
+        lim = int(os.environ.get("VERIF_MEM_MB", "4096")) << 20
+        resource.setrlimit(resource.RLIMIT_AS, (lim, lim))
+    except Exception:
+        pass
+
+
 def main(argv):
     args = json.loads(argv[1])
+    _limit_memory()
+    try:  # die with the parent (PR_SET_PDEATHSIG = 1)
+        import ctypes
+        import signal as _signal
+
+        ctypes.CDLL("libc.so.6").prctl(1, _signal.SIGKILL)
+    except Exception:
+        pass
     t0 = time.time()
     state = ShardState()
     status = {"ok": True}
